@@ -1040,8 +1040,15 @@ func (vm *VirtualMachine) callObject(
 func (vm *VirtualMachine) resumeFrame(fp, ip, sp int) *frame {
 	// The return value of the previous frame is on the top of the stack
 	var frameResult object.Object = nil
-	if vm.sp > sp {
+	hasResult := vm.sp > sp
+	if hasResult {
 		frameResult = vm.pop()
+		if frameResult == nil {
+			// A Go nil (a hoisted function that is not defined yet, the result
+			// of a builtin that returns nothing) is still the frame's result:
+			// the caller pops one value
+			frameResult = object.Nil
+		}
 	}
 	// Remove any items left on the stack by the previous frame
 	for i := vm.sp; i > sp; i-- {
@@ -1049,7 +1056,7 @@ func (vm *VirtualMachine) resumeFrame(fp, ip, sp int) *frame {
 	}
 	vm.sp = sp
 	// Push the frame result back onto the stack
-	if frameResult != nil {
+	if hasResult {
 		vm.push(frameResult)
 	}
 	// Activate the resumed frame
